@@ -38,6 +38,11 @@ func lexPool(kind string) []lexItem {
 		add("Word", "w", "andy", "inn", "isle", "nota", "xors", "truest", "falsey", "liked", "li\u212ae", "LI\u212aE")
 		// every other ASCII punctuation character is a symbol of its own
 		add("Symbol", "s", "$", ":", "?", "@", "\\", "`", "{", "|", "}", "~", "#")
+		// identifiers that look like the exponent part of a number or like a number with a letter in front: a
+		// number needs a digit before its exponent, so none of these merges with a symbol in front of it - the
+		// dot included, which is a symbol of its own wherever no digit follows it
+		add("Word", "w", "E", "e1", "E27_max", "e_1", "e5x", "E2y", "e1e1", "x1e5", "_1", "O0")
+		add("Symbol", "s", ".")
 	} else {
 		add("Word", "w", "abc", "a1", "жук", "Éa", "e", "x_y", "Øre", "ñu", "ÿz", "net-price"[:3])
 		add("Integer", "n", "0", "12", "-3")
@@ -46,6 +51,9 @@ func lexPool(kind string) []lexItem {
 		add("Symbol", "s", "<", ">", "=", "<=", ">=", "<>", "+", "*", "/", "(", ")", ",", ";", "!", "{", "}")
 		// every other ASCII punctuation character is a symbol of its own (the underscore included: here it continues a word but does not start one)
 		add("Symbol", "s", "_", "$", "%", "&", ":", "?", "@", "[", "\\", "]", "^", "`", "|", "~")
+		// a sign or dot that no digit follows is a symbol, also directly before an identifier (after one it may continue the word)
+		add("Word", "w", "E", "e1", "E27_max", "e5x", "x1e5")
+		add("Symbol", "s", ".", "-")
 	}
 	return p
 }
@@ -96,7 +104,7 @@ func (c *Ctx) lexRun() map[string]*simpleVerdict {
 					if strings.ContainsAny(sym.text, "-./") && other.kind == "n" {
 						continue
 					}
-					if kind == "generic" && strings.ContainsAny(sym.text, "-._") {
+					if kind == "generic" && (sym.text == "_" || (strings.ContainsAny(sym.text, "-.") && sym.text == b.text)) {
 						continue
 					}
 					seqs = append(seqs, seq{a.text + b.text, []lexItem{a, b}})
@@ -113,6 +121,30 @@ func (c *Ctx) lexRun() map[string]*simpleVerdict {
 					seqs = append(seqs, seq{a.text + " " + b.text + " " + a.text, []lexItem{a, {" ", "Whitespace", " "}, b, {" ", "Whitespace", " "}, a}})
 					if b.kind == "s" {
 						seqs = append(seqs, seq{a.text + b.text + a.text, []lexItem{a, b, a}})
+					}
+				}
+			}
+		}
+		// every single-character symbol between two identifiers, exponent look-alikes among them
+		for _, b := range pool {
+			if b.kind != "s" || len([]rune(b.text)) != 1 || (kind == "generic" && strings.ContainsAny(b.text, "-._")) {
+				continue
+			}
+			for _, a := range []string{"abc", "e1", "E27_max", "x9"} {
+				for _, d := range []string{"e1", "E2y", "e", "abc", "e5x"} {
+					seqs = append(seqs, seq{a + b.text + d, []lexItem{{a, "Word", "w"}, b, {d, "Word", "w"}}})
+				}
+			}
+		}
+		// a symbol, an identifier that looks like an exponent marker, a sign, a number: four lexemes
+		if kind == "expression" {
+			for _, s0 := range []string{".", "(", ",", "*"} {
+				for _, id := range []string{"e", "E", "e1", "E2"} {
+					for _, sg := range []string{"-", "+"} {
+						for _, n := range []lexItem{{"3", "Integer", "n"}, {"12", "Integer", "n"}, {"1.5", "Float", "n"}} {
+							seqs = append(seqs, seq{s0 + id + sg + n.text, []lexItem{{s0, "Symbol", "s"}, {id, "Word", "w"}, {sg, "Symbol", "s"}, n}})
+							seqs = append(seqs, seq{"a" + s0 + id + sg + n.text, []lexItem{{"a", "Word", "w"}, {s0, "Symbol", "s"}, {id, "Word", "w"}, {sg, "Symbol", "s"}, n}})
+						}
 					}
 				}
 			}
@@ -219,7 +251,7 @@ func (c *Ctx) lexRun() map[string]*simpleVerdict {
 
 func init() {
 	register(&Rule{ID: "TOK.lexemes", Floor: 2,
-		Doc: "the generic and the expression tokenizer evaluated abstractly over sequences of lexemes of every class (identifiers incl. Latin-1 / non-Latin starts, keywords in any case, integer, decimal and scientific numbers, quoted strings with doubled quotes, comments, whitespace runs, every single and multi-character symbol): singles, every ordered pair with a separator, pairs of unmergeable kinds without one, triples around every multi-character symbol and keyword: exactly those lexemes with exactly those classes come back",
+		Doc: "the generic and the expression tokenizer evaluated abstractly over sequences of lexemes of every class (identifiers incl. Latin-1 / non-Latin starts, keywords in any case, integer, decimal and scientific numbers, quoted strings with doubled quotes, comments, whitespace runs, every single and multi-character symbol): singles, every ordered pair with a separator, pairs of unmergeable kinds without one, triples around every multi-character symbol and keyword, every single-character symbol (the dot included) between identifiers that may look like exponent parts: exactly those lexemes with exactly those classes come back",
 		Run: func(c *Ctx) []*Obligation {
 			o := newObl("TOK.lexemes")
 			res := c.lexRun()
